@@ -112,7 +112,8 @@ PropC19(e) == e.ev = "concat" =>
      /\ e.whole.outcome = "returned" /\ e.whole.errs = <<>>
      /\ Real(e.whole).msgs = CatMsgs(e.parts, 1)          \* the messages of the first, then of the second, each as alone
      /\ Len(e.whole.warns) = SumWarns(e.parts, 1)
-AgreeC19(e) == e.ev = "concat" => Real(e.whole) = Model(e.whole)
+\* (the parser model is quadratic in the number of variables of a message: very long texts are left to PropC19)
+AgreeC19(e) == (e.ev = "concat" /\ Len(e.whole.text) <= 12000) => Real(e.whole) = Model(e.whole)
 
 \* ------------------------------------------------------------------ C15: ASCII variable bounds kept, printed back, enforced
 PropC15v(e) == e.ev = "asciivar" =>
